@@ -306,14 +306,20 @@ def local_gp_fitting(
     # TODO Adjust prior length scales for periodic variables (mapped to unit circle)
 
     # Empirical prior on covariance signal variance ((output scale)
+    sd_y = None
     if options["warp_func"] == 0:
-        sd_y = np.log(np.std(gp.y))
+        std_y = np.std(gp.y)
+        # Degenerate training set (single point or constant values): keep
+        # the current prior instead of a -inf prior mean
+        if np.isfinite(std_y) and std_y > 0:
+            sd_y = np.log(std_y)
     else:
         # TODO warp function (Matlab  gpdefbads line-code 302)
         pass
 
     # Re-fit gaussian Process (optimize or sample -- only optimization supported)
-    gp_priors["covariance_log_outputscale"] = ("gaussian", (sd_y, 2.0))
+    if sd_y is not None:
+        gp_priors["covariance_log_outputscale"] = ("gaussian", (sd_y, 2.0))
     gp.set_priors(gp_priors)
 
     old_hyp_gp = gp.get_hyperparameters(as_array=True)
